@@ -58,6 +58,8 @@ FINDING_TEXTS = {
     "symeExtensionFirst": (b'#include "axllib"\nCatA:Category{{(if false then())}}PD0(T:CatA):CatB=={(())}\n', []),
     "empty-export-message": (b'#include "axllib"\ndefine Ex0: Category == Exception with;\n'
                              b'define Ex0 : Ex0 @ Category == add add ;\n', []),
+    "multi-assign-rhs-parts": (b'#include "axllib"\nimport from SingleInteger, Boolean, String;\n'
+                               b'fq(): (SingleInteger, Boolean) == (1, true);\n(rq: SingleInteger, sq: String) := fq();\n', []),
     "gen0PatchEEltFormats": (b'#include "foamlib"\n#pile\n\nimport { foo: MachineInteger -> () } from Foreign C("foo.h")\n\n'
                              b'import from MachineInteger\nfoo(2) pretend MachineInteger\n', ci.FOAMLIB_ARGS),
     "foamAuditBadRef": (b'#include "axllib"\nSI==>SingleInteger;BI==>{op4:()->SI;()}DA1==add{op4():SI==((16quo 10)@SI);op5==(false)}'
